@@ -16,12 +16,42 @@ ASSUMPTIONS = [
     'symlink and does not follow links inside the tree',
     'elements of os.listdir contain no path separator',
 ]
-MINIMUM = {'R11.1': 4, 'R11.2': 4, 'R11.3': 2}
+MINIMUM = {'R11.1': 4, 'R11.2': 4, 'R11.3': 2, 'R11.5': 3}
 ALLOWED_DELETE = {'os.remove', 'os.unlink', 'os.rmdir', 'shutil.rmtree'}
 LINK_SAFE = {'os.remove', 'os.unlink', 'os.rmdir'}
 
 
 def check(ctx):
+    # ---- R11.5 the payload name derived from an info name is a real name
+    for cmd in ('empty', 'rm', 'restore'):
+        b = ctx.graph(cmd)
+        for e in mutating_effects(b, 'DELETE', 'MOVE'):
+            p = e.data['roles'].get('src') if e.data['kind'] == 'MOVE' else \
+                e.data['roles'].get('path')
+            if p is None or not all(match_pbc(a) is not None for a in flat(p)):
+                continue
+            ok = excludes_degenerate_names(b, e, None)
+            if not ok:
+                # the entry reaches this effect through collected objects: it exists only
+                # if its .trashinfo was read, so the guard may sit on that read
+                infos = set()
+                for a in flat(p):
+                    infos |= alt_ids(match_pbc(a))
+                reads = [r_ for r_ in b.effects('OPEN_READ')
+                         if alt_ids(r_.data['roles']['path']) & infos]
+                covered = set()
+                for r_ in reads:
+                    covered |= alt_ids(r_.data['roles']['path'])
+                ok = bool(reads) and infos <= covered and \
+                    all(guarded_read(b, r_) for r_ in reads)
+            ctx.ob('R11.5', '%s: pbc() is applied only to info names with a real payload name'
+                   % cmd, ok, node=e,
+                   construct='%s payload of listed info' % cmd,
+                   text='%s %s' % (e.data['kind'], e.func),
+                   message='%s: an entry of info/ named ".trashinfo", "..trashinfo" or '
+                           '"...trashinfo" ends in ".trashinfo", so its payload path is '
+                           'files/, files/. or files/.. -- the %s then hits the whole files/ '
+                           'directory or the trash directory itself' % (cmd, e.data['kind']))
     for cmd in ('empty', 'rm'):
         b = ctx.graph(cmd)
         g = b.g
@@ -72,6 +102,46 @@ def check(ctx):
             ctx.ob('R11.4', 'no traversal / resolution feeds a DELETE', not (walked or resolved),
                    node=e, message='%s: DELETE argument %s comes from a recursive walk or a '
                                    'link-resolving call' % (cmd, short(path, 100)))
+
+
+def excludes_degenerate_names(b, e, infos):
+    """The effect e on pbc(I) is guarded by a test that rules out the info names whose
+    payload name would be '', '.' or '..' (pbc would then be files/, files/. or the
+    trash directory itself)."""
+    names = set()
+    for a in flat(path_role(e) if e.data['kind'] != 'MOVE' else e.data['roles']['src']):
+        i = match_pbc(a)
+        for x in walk(i if i is not None else a):
+            if isinstance(x, Elem) and is_call(strip(x.container), 'os.listdir'):
+                names.add(cid(x))
+    for c, pol, n in guards(b, e.id):
+        c2, p2 = unwrap_not(c, pol)
+        for x in ([c2] + (list(c2.values) if isinstance(c2, BoolT) else [])):
+            x = strip(x)
+            if not (isinstance(x, Cmp) and x.op in ('in', 'not in')):
+                continue
+            if not contains(x.left, lambda y: cid(y) in names):
+                continue
+            consts = set()
+            for y in walk(x.right):
+                if isinstance(y, Const) and isinstance(y.value, str):
+                    consts.add(y.value)
+                if isinstance(y, Const) and isinstance(y.value, (tuple, list)):
+                    consts |= set(y.value)
+            covers = {'', '.', '..'} <= consts or \
+                {'.trashinfo', '..trashinfo', '...trashinfo'} <= consts
+            excluded = (x.op == 'not in' and p2) or (x.op == 'in' and not p2)
+            if covers and excluded:
+                return True
+    return False
+
+
+def guarded_read(b, r_):
+    fake = type('E', (), {})()
+    fake.id = r_.id
+    fake.data = {'kind': 'DELETE', 'roles': {'path': r_.data['roles']['path']}, 'args': [
+        r_.data['roles']['path']]}
+    return excludes_degenerate_names(b, fake, None)
 
 
 def rmtree_is_fallback(b, e):
